@@ -129,7 +129,7 @@ var c14Hist = Check[c14Case]{
 
 type c14ConcCase struct {
 	D       DumpM
-	Workers [][]int // per goroutine: ops 0..3 Aggregate(level) on the shared snapshot, 4 Aggregated.ToHTML, 5 Snapshot.ToHTML, 6 scan with the shared Opts, 7 yield, 8 Args.String() of every call
+	Workers [][]int // per goroutine: ops 0..3 Aggregate(level) on the shared snapshot, 4 Aggregated.ToHTML, 5 Snapshot.ToHTML, 6 scan with the shared Opts, 7 yield, 8 Args.String() of every call, 9 race report remainder, 10 scan of the worker's own dump with naming on
 	Procs   int
 }
 
@@ -163,6 +163,18 @@ func c14ConcOracle(c c14ConcCase) error {
 		wantHTML[1] = maskHTML(b.Bytes())
 	}
 	pristine := cloneSnapshot(snap)
+	// every worker also has a dump of its own (other pointer values, hence other names), with
+	// its sequential scan as the reference
+	own := make([][]byte, len(c.Workers))
+	ownWant := make([]*stack.Snapshot, len(c.Workers))
+	for w := range c.Workers {
+		own[w] = bytes.ReplaceAll(x, []byte("0xc0000"), []byte(fmt.Sprintf("0xc%03x0", w+1)))
+		s, _, _ := stack.ScanSnapshot(bytes.NewReader(own[w]), io.Discard, &stack.Opts{NameArguments: true})
+		if s == nil {
+			return fmt.Errorf("HARNESS: worker dump %d does not parse", w)
+		}
+		ownWant[w] = s
+	}
 	old := runtime.GOMAXPROCS(c.Procs)
 	defer runtime.GOMAXPROCS(old)
 	start := make(chan struct{})
@@ -226,6 +238,12 @@ func c14ConcOracle(c c14ConcCase) error {
 						errs[w] = fmt.Errorf("worker %d: an earlier snapshot changed after a later scan", w)
 						return
 					}
+				case op == 10:
+					s, _, _ := stack.ScanSnapshot(bytes.NewReader(own[w]), io.Discard, &stack.Opts{NameArguments: true})
+					if s == nil || !reflect.DeepEqual(s.Goroutines, ownWant[w].Goroutines) {
+						errs[w] = fmt.Errorf("worker %d: the scan of its own dump (pointer naming on) while other goroutines scan theirs differs from the same scan run alone", w)
+						return
+					}
 				case op == 8:
 					// the text building block of every renderer: Signature/Args/Arg String()
 					for _, g := range snap.Goroutines {
@@ -278,7 +296,7 @@ var c14Conc = Check[c14ConcCase]{
 		nw := rapid.IntRange(2, 16).Draw(t, "workers")
 		c := c14ConcCase{D: d, Procs: rapid.SampledFrom([]int{1, 2, 16}).Draw(t, "procs")}
 		for w := 0; w < nw; w++ {
-			c.Workers = append(c.Workers, rapid.SliceOfN(rapid.IntRange(0, 9), 1, 8).Draw(t, "ops"))
+			c.Workers = append(c.Workers, rapid.SliceOfN(rapid.IntRange(0, 10), 1, 8).Draw(t, "ops"))
 		}
 		return c
 	},
